@@ -633,6 +633,19 @@ def run_manifest_faults(rng):
     out = []
     n = 0
     real_stat, real_open, real_bopen = os.stat, os.open, io.open
+    # a compressed sub-Manifest that matches its MANIFEST entry but is no valid compressed stream: the decompressors raise an
+    # OSError *without errno* (gzip.BadGzipFile / "Invalid data stream"), which must not end in exit status 0 either
+    for sfx, junk in (('.gz', b'\x1f\x8b\x08\x00 not really gzip'), ('.bz2', b'BZh9 not really bzip2'), ('.xz', b'\xfd7zXZ\x00 junk'), ('.gz', b'plain text')):
+        with C.Scratch() as root:
+            C.make_tree(root, {'a': b'a', 'sub/b': b'bb', 'sub/Manifest' + sfx: junk})
+            C.write_manifest(os.path.join(root, 'Manifest'), [C.entry_line('DATA', 'a', b'a', ['SHA1']),
+                                                              C.entry_line('MANIFEST', 'sub/Manifest' + sfx, junk, ['SHA1'])])
+            for argv in (['verify', '-j', '1', root], ['verify', '-j', '1', '-k', root], ['update', '-j', '1', '--hashes', 'SHA1', root]):
+                st = C.run_cli(argv)
+                n += 1
+                if st == 0:
+                    out.append({'what': 'C06 sub/Manifest%s is not a valid compressed stream, yet `gemato %s` exited 0' % (sfx, ' '.join(argv[:-1])),
+                                'key': 'manifest-fault:corrupt-compressed:%s' % argv[0], 'props': ['C06']})
     for where, how in itertools.product(('top-from-subdir', 'sub', 'top'), ('eloop', 'eio')):
         with C.Scratch() as root:
             C.make_tree(root, {'a': b'a', 'sub/b': b'bb', 'sub/deep/c': b'c'})
